@@ -24,7 +24,7 @@ def run(chk):
     chk.coq()
     # an option that only C06's relations can be checked under (it deliberately modifies Bpxy at the y-faces next to an X-point, so the field
     # oracles of other properties do not apply): dphidy must be computed from the Bpxy that is written to the file.  Needs Bp > 0 for the cap to act.
-    extra = [corpus.tok("lsn_neg_capBp", "lsn", corpus.SN, sign=-1.0, options=dict(cap_Bp_ylow_xpoint=True))]
+    extra = [corpus.tok("lsn_neg_capBp", "lsn", corpus.SN, sign=-1.0, options=dict(cap_Bp_ylow_xpoint=True), must_build=True)]
     grids = corpus.get(tier=chk.tier, extra_cfgs=extra)
     n = 0
     worst = {}
